@@ -87,6 +87,7 @@ pub fn record(rest: &[String]) -> anyhow::Result<()> {
     let pairs_pct = util::opt_u64(rest, "--pairs", 10);
     let triples = util::opt_u64(rest, "--triples", 2000);
     let progress = util::opt(rest, "--progress").map(|s| s.to_owned());
+    let skip = util::opt_u64(rest, "--skip", 0) as usize;
     let globals = run::globals();
     let cat = catalogue();
     let mut rng = util::Rng(seed ^ 0x5151);
@@ -169,7 +170,7 @@ pub fn record(rest: &[String]) -> anyhow::Result<()> {
     })?;
     // run them; after a panic the evaluator is abandoned (its state is not specified any more)
     // and a fresh module + evaluator continue with the next call
-    let mut idx = 0usize;
+    let mut idx = skip;
     while idx < calls.len() {
         Module::with_temp_heap(|module| -> anyhow::Result<()> {
             let mut eval = Evaluator::new(&module);
@@ -187,7 +188,7 @@ pub fn record(rest: &[String]) -> anyhow::Result<()> {
                 }
                 let src = format!("{}({})\n", target, a.join(", "));
                 if let Some(p) = &progress {
-                    std::fs::write(p, &src)?;
+                    std::fs::write(p, format!("{}\t{}", idx, src))?;
                 }
                 let (res, span_ok, msg) = eval_one(&mut eval, &globals, &src);
                 let stack = util::catch(std::panic::AssertUnwindSafe(|| eval.call_stack_count())).unwrap_or(99);
